@@ -1,6 +1,288 @@
-//! Monitor for C23 (see /verif/DESIGN.md §5 C23).
-use vcommon::Args;
+//! C23 — user actions complete or cancel exactly once and escrow always goes home.
+//!
+//! Observed: every deposit / withdrawal / shift / order account of the exchange workload after every
+//! transaction (state read from the account header), escrow token accounts, owner ATAs, lamports,
+//! market accounts and vaults. Oracle: the lifecycle automaton
+//!   (absent) → Pending → {Completed | Cancelled} → (closed)
+//! plus the closing / cancelling rules stated in the property.
+use crate::sim::{action_state, ActKind, ActionRec, Op, Sim, StepRec, Who};
+use crate::world::{exchange::load, World};
+use anchor_lang::prelude::Pubkey;
+use gmsol_model::{Balance, ClockKind, PoolKind};
+use gmsol_store::states::Market;
+use gmsol_utils::action::ActionState;
+use hostsvm::{token, Svm};
+use strum::IntoEnumIterator;
+use vcommon::{json, monitor::run_shards, Args, Monitor};
 
-pub fn run(_args: &Args) -> Option<i32> {
-    None
+/// Stored (committed) market state: all pools, clocks and the other-state block.
+pub fn market_semantic(svm: &Svm, market: &Pubkey) -> Option<Vec<u8>> {
+    let m = load::<Market>(svm, market)?;
+    let mut out = vec![];
+    for k in PoolKind::iter() {
+        if let Some(p) = m.pool(k) {
+            out.extend_from_slice(&p.long_amount().unwrap_or(0).to_le_bytes());
+            out.extend_from_slice(&p.short_amount().unwrap_or(0).to_le_bytes());
+        }
+    }
+    for k in ClockKind::iter() {
+        out.extend_from_slice(&m.clock(k).unwrap_or(i64::MIN).to_le_bytes());
+    }
+    out.extend_from_slice(&borsh::to_vec(m.state()).unwrap_or_default());
+    Some(out)
+}
+
+fn st(s: Option<ActionState>) -> &'static str {
+    match s {
+        None => "absent",
+        Some(ActionState::Pending) => "pending",
+        Some(ActionState::Completed) => "completed",
+        Some(ActionState::Cancelled) => "cancelled",
+        Some(_) => "other",
+    }
+}
+
+fn tok(svm: &Svm, k: &Pubkey) -> u64 {
+    token::token_amount(svm, k).unwrap_or(0)
+}
+
+struct Ctx<'a> {
+    shard: u64,
+    step: u64,
+    sim: &'a Sim,
+}
+
+impl Ctx<'_> {
+    fn wit(&self, extra: serde_json::Value) -> serde_json::Value {
+        json!({"shard": self.shard, "step": self.step, "detail": extra, "history": self.sim.history})
+    }
+}
+
+use vcommon::serde_json;
+
+fn check_step(m: &mut Monitor, c: &Ctx, rec: &StepRec, last: &mut Vec<Option<ActionState>>) {
+    let sim = c.sim;
+    let w: &World = &sim.w;
+    // (1) automaton over all known actions
+    while last.len() < sim.actions.len() {
+        last.push(None);
+    }
+    for (i, a) in sim.actions.iter().enumerate() {
+        let pre = if Some(i) == rec.created { None } else { action_state(&rec.pre, a.kind, &a.addr) };
+        let now = action_state(&w.svm, a.kind, &a.addr);
+        if pre != now {
+            m.eval();
+            m.count(&format!("transition_{}_{}_to_{}", kind_name(a), st(pre), st(now)));
+            m.nontrivial(format!("{}:{}:{}:{}", kind_name(a), st(pre), st(now), rec.op.name()).as_bytes());
+            let legal = matches!(
+                (pre, now),
+                (None, Some(ActionState::Pending))
+                    | (Some(ActionState::Pending), Some(ActionState::Completed))
+                    | (Some(ActionState::Pending), Some(ActionState::Cancelled))
+                    | (Some(_), None)
+                    // position-cut orders are created and completed by the keeper in one transaction
+                    | (None, Some(ActionState::Completed))
+            );
+            let cut_only = matches!((pre, now), (None, Some(ActionState::Completed)));
+            if !legal || (cut_only && !a.is_position_cut) {
+                m.violation(
+                    &format!("C23:lifecycle:illegal_transition_{}_to_{}", st(pre), st(now)),
+                    c.wit(json!({"action": format!("{:?}", a.addr), "kind": kind_name(a), "op": format!("{:?}", rec.op)})),
+                );
+            }
+            if pre.is_some() && now.is_none() && !matches!(rec.op, Op::Close { .. }) {
+                m.violation(
+                    "C23:lifecycle:action_account_disappeared_without_close",
+                    c.wit(json!({"action": format!("{:?}", a.addr), "op": format!("{:?}", rec.op)})),
+                );
+            }
+        }
+        last[i] = now;
+    }
+    // (2) executions
+    if let Op::Execute { action, throw } = &rec.op {
+        let a = &sim.actions[*action];
+        let pre = action_state(&rec.pre, a.kind, &a.addr);
+        let now = action_state(&w.svm, a.kind, &a.addr);
+        if rec.ok() {
+            m.eval();
+            if pre != Some(ActionState::Pending) {
+                m.violation(
+                    "C23:execute:succeeded_on_non_pending_action",
+                    c.wit(json!({"action": format!("{:?}", a.addr), "pre": st(pre), "now": st(now)})),
+                );
+            }
+            if now == Some(ActionState::Cancelled) {
+                // soft failure: cancelled, escrow back, markets and vaults untouched
+                m.count(&format!("soft_failed_execution_{}", kind_name(a)));
+                m.nontrivial(format!("softfail:{}:{}", kind_name(a), throw).as_bytes());
+                for mi in &w.markets {
+                    if market_semantic(&rec.pre, &mi.market) != market_semantic(&w.svm, &mi.market) {
+                        m.violation(
+                            "C23:execute:failed_execution_changed_market_state",
+                            c.wit(json!({"action": format!("{:?}", a.addr), "market": mi.name})),
+                        );
+                    }
+                }
+                for t in &w.tokens {
+                    if t.synthetic {
+                        continue;
+                    }
+                    let v = w.vault(&t.mint);
+                    if tok(&rec.pre, &v) != tok(&w.svm, &v) {
+                        m.violation(
+                            "C23:execute:failed_execution_changed_vault_balance",
+                            c.wit(json!({"action": format!("{:?}", a.addr), "token": t.name})),
+                        );
+                    }
+                }
+                for mi in &w.markets {
+                    let v = w.vault(&mi.market_token);
+                    if tok(&rec.pre, &v) != tok(&w.svm, &v) || token::mint_supply(&rec.pre, &mi.market_token) != token::mint_supply(&w.svm, &mi.market_token) {
+                        m.violation(
+                            "C23:execute:failed_execution_changed_market_token_supply_or_vault",
+                            c.wit(json!({"action": format!("{:?}", a.addr), "market": mi.name})),
+                        );
+                    }
+                }
+                for (e, mint) in &a.escrows {
+                    if tok(&rec.pre, e) != tok(&w.svm, e) {
+                        m.violation(
+                            "C23:execute:failed_execution_did_not_return_escrow",
+                            c.wit(json!({"action": format!("{:?}", a.addr), "mint": format!("{mint}"), "pre": tok(&rec.pre, e), "post": tok(&w.svm, e)})),
+                        );
+                    }
+                }
+            } else if now == Some(ActionState::Completed) {
+                m.count(&format!("completed_execution_{}", kind_name(a)));
+            }
+        } else if rec.result.is_some() {
+            m.count(&format!("hard_failed_execution_{}", kind_name(a)));
+        }
+    }
+    // (3) closes
+    if let Op::Close { action, who } = &rec.op {
+        let a = &sim.actions[*action];
+        let pre = action_state(&rec.pre, a.kind, &a.addr);
+        if rec.ok() {
+            m.eval();
+            m.count(&format!("close_ok_by_{who:?}_{}", st(pre)));
+            m.nontrivial(format!("close:{}:{:?}:{}", kind_name(a), who, st(pre)).as_bytes());
+            let executor_is_owner = *who == Who::Owner || (a.is_position_cut && false);
+            match who {
+                Who::Stranger => m.violation(
+                    "C23:close:stranger_closed_an_action",
+                    c.wit(json!({"action": format!("{:?}", a.addr), "pre": st(pre)})),
+                ),
+                Who::Keeper if pre == Some(ActionState::Pending) => m.violation(
+                    "C23:close:keeper_closed_a_pending_action",
+                    c.wit(json!({"action": format!("{:?}", a.addr)})),
+                ),
+                _ => {}
+            }
+            let closed = w.svm.get(&a.addr).is_none();
+            if closed {
+                // every escrowed token went to the owner's ATA; escrow accounts are gone / empty
+                let mut lamports_home: u64 = rec.pre.lamports(&a.addr);
+                for (e, mint) in &a.escrows {
+                    let pre_amt = tok(&rec.pre, e);
+                    let post_amt = tok(&w.svm, e);
+                    lamports_home += rec.pre.lamports(e) - w.svm.lamports(e);
+                    let ata = token::ata(&a.owner, mint);
+                    let gained = tok(&w.svm, &ata) as i128 - tok(&rec.pre, &ata) as i128;
+                    if post_amt != 0 || gained != pre_amt as i128 {
+                        m.violation(
+                            "C23:close:escrow_not_returned_to_owner",
+                            c.wit(json!({"action": format!("{:?}", a.addr), "mint": format!("{mint}"), "escrow_before": pre_amt, "escrow_after": post_amt, "owner_gained": gained.to_string(), "pre_state": st(pre)})),
+                        );
+                    }
+                    if pre_amt > 0 {
+                        m.count("escrow_tokens_returned_on_close");
+                    }
+                }
+                // rent + unused execution fee go to the owner (rent receiver); position-cut orders were
+                // funded by the keeper, so there the receiver is the keeper.
+                if !a.is_position_cut {
+                    let gained = w.svm.lamports(&a.owner) as i128 - rec.pre.lamports(&a.owner) as i128;
+                    let ok = if executor_is_owner { gained == lamports_home as i128 } else { gained == lamports_home as i128 };
+                    if !ok {
+                        m.violation(
+                            "C23:close:lamports_not_returned_to_owner",
+                            c.wit(json!({"action": format!("{:?}", a.addr), "owner_gained": gained.to_string(), "action_and_escrow_lamports": lamports_home, "who": format!("{who:?}")})),
+                        );
+                    }
+                }
+            } else {
+                m.count("close_ok_but_account_kept");
+            }
+        } else if rec.result.is_some() {
+            m.count(&format!("close_rejected_by_{who:?}_{}", st(pre)));
+            if *who == Who::Stranger || (*who == Who::Keeper && pre == Some(ActionState::Pending)) {
+                m.eval();
+                m.nontrivial(format!("close_denied:{}:{:?}:{}", kind_name(a), who, st(pre)).as_bytes());
+            }
+        }
+    }
+    if let Op::CancelIfNoPosition { action } = &rec.op {
+        if rec.ok() {
+            let a = &sim.actions[*action];
+            m.count("cancel_if_no_position_ok");
+            let _ = a;
+        }
+    }
+}
+
+fn kind_name(a: &ActionRec) -> &'static str {
+    match a.kind {
+        ActKind::Deposit => "deposit",
+        ActKind::Withdrawal => "withdrawal",
+        ActKind::Shift => "shift",
+        ActKind::Order => {
+            if a.is_position_cut {
+                "cut_order"
+            } else {
+                "order"
+            }
+        }
+    }
+}
+
+pub fn run(args: &Args) -> Option<i32> {
+    let mut mon = Monitor::new(
+        args,
+        "random multi-market histories (see sim.rs) with create / execute (throwing and non-throwing) / close by owner, \
+         keeper and stranger, double executions, stale prices and expired requests, through the real store \
+         instructions in hostsvm; oracle = lifecycle automaton + close/cancel rules checked after every transaction. \
+         non-trivial = an observed action state transition, a soft-failed execution, or a close attempt by each party; \
+         distinct = (action kind, pre state, post state / party, operation)",
+    );
+    mon.assume("GLV actions are driven by the C45 monitor, not here");
+    mon.assume("all ATAs exist when an action is closed (the 'ATA not initialised: skip close' path is counted, not judged)");
+    let shards = args.scale(32, 256);
+    let steps = args.scale(350, 900);
+    let quiet = hostsvm::QuietStdout::new();
+    run_shards(&mut mon, args.threads, shards, |shard, m| {
+        let mut sim = Sim::new(args.seed, shard);
+        let mut last = vec![];
+        for step in 0..steps {
+            let rec = sim.step();
+            let c = Ctx { shard, step, sim: &sim };
+            check_step(m, &c, &rec, &mut last);
+            if m.has_violations() {
+                break;
+            }
+            if m.wants_sample() && step % 53 == 7 {
+                if let Op::Close { .. } | Op::Execute { .. } = rec.op {
+                    m.sample(json!({"shard": shard, "step": step, "op": format!("{:?}", rec.op), "ok": rec.ok()}));
+                }
+            }
+        }
+    });
+    drop(quiet);
+    mon.require("close_ok_by_Owner_pending", 20);
+    mon.require("close_ok_by_Keeper_completed", 5);
+    mon.require("close_rejected_by_Stranger_pending", 5);
+    mon.require("close_rejected_by_Keeper_pending", 5);
+    mon.require("escrow_tokens_returned_on_close", 20);
+    Some(mon.finish())
 }
